@@ -432,10 +432,21 @@ def wrap_server(run, sproto):
                 s.kind = kind
                 s.sh_at_exit = letter(stream.id)
                 run.op('q:%d:%s' % (c, kind), '-')
-        before = asyncio.all_tasks()
-        r = o_accept(stream, headers, release)
-        new = [x for x in asyncio.all_tasks() if x not in before]
-        st[c].htask = new[0] if len(new) == 1 else None
+        # which task serves this stream: the one created through the loop's public create_task while
+        # accept runs (asyncio.all_tasks() walks every task of the process and made long runs quadratic)
+        loop = asyncio.get_event_loop()
+        created, orig_ct = [], loop.create_task
+
+        def create_task(coro, **kw):
+            tk = orig_ct(coro, **kw)
+            created.append(tk)
+            return tk
+        loop.create_task = create_task
+        try:
+            r = o_accept(stream, headers, release)
+        finally:
+            del loop.create_task
+        st[c].htask = created[0] if len(created) == 1 else None
         return r
 
     sh2.send_headers, sh2.reset_stream = send_headers, reset_stream
